@@ -22,6 +22,9 @@ struct NullEmitter {
     bundle: IntoDynSyncSend<rustc_errors::LazyFallbackBundle>,
 }
 
+/// Messages of the diagnostics of the most recent `with_crate` call on this thread (dev aid).
+pub static LAST_DIAGS: std::sync::Mutex<Vec<String>> = std::sync::Mutex::new(Vec::new());
+
 impl Translate for NullEmitter {
     fn fluent_bundle(&self) -> Option<&rustc_errors::FluentBundle> {
         None
@@ -35,7 +38,13 @@ impl Emitter for NullEmitter {
     fn source_map(&self) -> Option<&SourceMap> {
         None
     }
-    fn emit_diagnostic(&mut self, _diag: DiagInner, _registry: &Registry) {}
+    fn emit_diagnostic(&mut self, diag: DiagInner, _registry: &Registry) {
+        if let Ok(mut v) = LAST_DIAGS.lock() {
+            if v.len() < 8 {
+                v.push(format!("{:?} @ {:?}", diag.messages.first().map(|m| &m.0), diag.span.primary_span()));
+            }
+        }
+    }
 }
 
 pub fn edition_of(s: &str) -> Edition {
@@ -55,6 +64,9 @@ pub fn with_crate<R>(
     f: impl FnOnce(Option<(&mut ast::Crate, &SourceMap)>) -> R,
 ) -> R {
     let src = src.to_owned();
+    if let Ok(mut v) = LAST_DIAGS.lock() {
+        v.clear();
+    }
     rustc_span::create_session_globals_then(edition_of(edition), None, || {
         let source_map = Arc::new(SourceMap::new(FilePathMapping::empty()));
         let bundle = rustc_errors::fallback_fluent_bundle(
@@ -75,7 +87,7 @@ pub fn with_crate<R>(
                 Ok(p) => p,
                 Err(diags) => {
                     for d in diags {
-                        d.cancel();
+                        d.emit();
                     }
                     return None;
                 }
@@ -83,7 +95,7 @@ pub fn with_crate<R>(
             match parser.parse_crate_mod() {
                 Ok(k) => Some(k),
                 Err(d) => {
-                    d.cancel();
+                    d.emit();
                     None
                 }
             }
